@@ -693,5 +693,29 @@ fn main() {
         crosscheck_stateright(&ctx, "tridiagonal histories n<=3", inits.clone(), depth);
     }
     explore_replayed(&ctx, "clone-free histories on one Tridiagonal<Rat>", inits, BfsOpts { max_depth: ctx.pick(4, 5), state_cap: 2_000_000 });
+    // Known findings: (1) Tridiagonal<Complex<f64>>::solve with a pivot beyond |z| ~ 1e154 (unscaled complex division, see C01);
+    // (2) the three-term determinant recurrence forms sub * sup first, which over- / underflows for entries 2^+-600 although the
+    // determinant (and the dense twin's value) is representable.
+    {
+        ctx.known_cases(
+            "listed inputs: tridiagonal matrices with entries of extreme magnitude",
+            vec![
+                ("extreme-complex tridiagonal (2e160) x = (2e160)".to_string(), Box::new(|| {
+                    let t = Tridiagonal::with_vecs(vec![], vec![Cmplx::new(2e160, 0.0)], vec![]);
+                    let x = t.solve(&Vector::create(vec![Cmplx::new(2e160, 0.0)]));
+                    ensure!((x[0].real - 1.0).abs() <= 1e-12 && x[0].imag == 0.0, "x = {:?} but the solution is 1", x.vec);
+                    Ok(())
+                })),
+                ("extreme-f64 tridiagonal det sub=[1,2^-600] main=[2^600,2^-600,1] sup=[1,2^-600]".to_string(), Box::new(|| {
+                    let p = 2f64.powi(600);
+                    let t = Tridiagonal::with_vecs(vec![1.0, 1.0 / p], vec![p, 1.0 / p, 1.0], vec![1.0, 1.0 / p]);
+                    let d = t.det();
+                    let dense = t.convert().determinant();
+                    ensure!(d == -1.0 / p, "det() = {:e} but the determinant is -2^-600 (the dense twin gives {:e})", d, dense);
+                    Ok(())
+                })),
+            ],
+        );
+    }
     std::process::exit(ctx.finish());
 }
